@@ -4,8 +4,10 @@ package ice
 
 import (
 	"context"
+	"encoding/json"
 	"errors"
 	"fmt"
+	"os"
 
 	"github.com/pion/ice/v4/internal/taskloop"
 	"github.com/pion/ice/v4/internal/zzmc"
@@ -167,6 +169,39 @@ func checkC10(c *runCtx) {
 	}
 	// coarse mode on a live agent: call/return histories of three concurrent API users against a sequential reference
 	csExplore(c, "api-linearizable", b, dl, nil)
+	// coarse mode: no two mutators are inside the agent at once (application callbacks as overlap detectors)
+	csExplore(c, "api-mutators-overlap", b, dl, nil)
+	c10racePass(c)
+}
+
+// c10racePass folds in the result of the auxiliary pass (bin/check runs harness/race_test.go in a -race build,
+// free running, before this process starts). Only its alarms count: a reported data race is a real one.
+func c10racePass(c *runCtx) {
+	raw := os.Getenv("VERIF_RACE_RESULT")
+	if raw == "" {
+		c.set("aux_race_pass", "not run")
+
+		return
+	}
+	var r struct {
+		Races     int    `json:"races"`
+		Completed bool   `json:"completed"`
+		Report    string `json:"report"`
+		First     string `json:"first"`
+	}
+	if err := json.Unmarshal([]byte(raw), &r); err != nil {
+		c.engineError("race pass result: %v", err)
+
+		return
+	}
+	c.set("aux_race_pass", map[string]any{"data_races_reported": r.Races, "completed": r.Completed,
+		"what": "8 API users + environment + readers on a live pair of agents, free running, -race build, 3 rounds; auxiliary, its silence is not evidence"})
+	if r.Races > 0 {
+		c.violation("", fmt.Sprintf("the race detector reports %d data race(s) while the public API is used from several goroutines; first: %s", r.Races, r.First),
+			map[string]any{"engine": "race", "report": r.Report})
+	} else if !r.Completed {
+		c.engineError("race pass did not complete (report %s)", r.Report)
+	}
 }
 
 // ---------------------------------------------------------------- coarse mode: linearizability of the public API
@@ -306,6 +341,71 @@ func c10linearizable() zzmc.Scenario {
 				_ = a.Close()
 
 				return fmt.Sprint(sig), fail
+			}
+		},
+	}
+}
+
+// c10overlap: two users call RenominateCandidate while a third task runs on the loop. The nomination value
+// generator (an application callback invoked in the middle of RenominateCandidate) and the task body are overlap
+// detectors: if the agent's mutators are serialised none of them can be active while another is.
+func init() {
+	csScenarios["api-mutators-overlap"] = c10overlap
+}
+
+func c10overlap() zzmc.Scenario {
+	return zzmc.Scenario{
+		Name:     "api-mutators-overlap",
+		Focus:    []string{"taskloop.go"},
+		MaxSteps: 4000,
+		Setup: func(s *zzmc.Sched) func(string) (string, string) {
+			fail := ""
+			active, gens := 0, uint32(0)
+			enter := func(who string) {
+				active++
+				if active > 1 {
+					fail += "OVERLAP-IN-" + who + " "
+				}
+				zzmc.HarnessPoint("inside " + who)
+				active--
+			}
+			a, err := NewAgentWithOptions(WithNet(vNet{}), WithMulticastDNSMode(MulticastDNSModeDisabled), WithNetworkTypes([]NetworkType{NetworkTypeUDP4}),
+				WithCandidateTypes([]CandidateType{CandidateTypeHost}), WithLocalCredentials(vUfragA, vPwdA), WithLoggerFactory(nopFactory{}),
+				WithRenomination(func() uint32 {
+					enter("generator")
+					gens++
+
+					return gens
+				}))
+			if err != nil {
+				panic(err)
+			}
+			a.remoteUfrag, a.remotePwd = vUfragB, vPwdB
+			a.isControlling.Store(true)
+			local, _ := NewCandidateHost(&CandidateHostConfig{Network: "udp", Address: "10.0.0.1", Port: 4000, Component: 1})
+			remote, _ := NewCandidateHost(&CandidateHostConfig{Network: "udp", Address: "10.0.0.2", Port: 5000, Component: 1})
+			w := newWorld()
+			local.conn = w.newSock("a0", "10.0.0.1", 4000, "")
+			a.addPair(local, remote).state = CandidatePairStateSucceeded
+			res := map[string]string{}
+			s.Go("T1", func() { res["T1"] = fmt.Sprint(a.RenominateCandidate(local, remote)) })
+			s.Go("T2", func() { res["T2"] = fmt.Sprint(a.RenominateCandidate(local, remote)) })
+			s.Go("T3", func() {
+				res["T3"] = fmt.Sprint(a.loop.Run(a.loop, func(context.Context) { enter("task") }))
+			})
+
+			return func(dead string) (string, string) {
+				if dead == "" && (gens != 2 || a.latestRenominationValue != 2) {
+					fail += fmt.Sprintf("GENERATOR-RAN-%d-LATEST-%d ", gens, a.latestRenominationValue)
+				}
+				for _, r := range res {
+					if r != "<nil>" {
+						fail += "CALL-FAILED-" + r + " "
+					}
+				}
+				_ = a.Close()
+
+				return fmt.Sprint(res, len(w.sentLog)), fail
 			}
 		},
 	}
